@@ -42,7 +42,7 @@ RULE = ("(a) 4 valid base CIDs (delimited with all 8 field types and both checks
         "Python expressions, empty), one cell at a time - quick: the delimited base completely, the others sampled; thorough: "
         "all, plus sampled pairs of cells; (b) hostile data cells: every field type x 4 formats x the pool through "
         "field.validated (compared with the model as in C02, any non-FieldValueError flagged) and through cutplace.rows on "
-        "delimited data; (c) containers: ODS and XLSX archives truncated at every k-th byte and with a bit flipped at every "
+        "delimited data; (c) containers: ODS documents with a hostile value in each of the four repeat attributes (as data and as the CID itself); ODS and XLSX archives truncated at every k-th byte and with a bit flipped at every "
         "k-th byte (quick k=16/7, thorough k=1), delimited and fixed files with undecodable bytes, NUL, unterminated quotes, "
         "short records; fixed and delimited data under CIDs with every built-in field type; (c') validio.Writer under the same CIDs with one hostile value per row; (d) cutplace.applications.main on hostile CIDs and data: exit code in {0,1,3} and never 4. "
         "Observed: accepted / InterfaceError (+row named) / DataError / other exception. Non-trivial: the hostile value is "
@@ -126,6 +126,8 @@ TEXT_BLOBS = {"txtall": [b"  1   1.5x01.02.2003abaxkabcd\n", b"  1      x       
               "csv": [b"1,x\n", b"1,\xff\n", b'1,"x\n', b"1,x\x00y\n", b"\xff\xfe1\x00", b"1,x\r\r\n2,y", b'1,"a"b\n', b"", b"\n\n", b"1\n", b"1,2,3\n", b"a,b\n", b"1,\xc3\n"],
               "txt": [b"  1abcde\n", b"  1abc", b"  1abcde\r\n", b"  1ab\xffde\n", b"", b"\n", b"  1abcdeX", b"  1abcde\n  2", b"\xe4" * 8 + b"\n", b"  1abcd\xc3"]}
 _BLOBS = {}
+# values for table:number-rows-repeated (R), table:number-columns-repeated of a filled (C) and an empty (E) cell, text:c (S)
+ATTR_POOL = ["0", "-1", "-0", "+2", "2", " 2 ", "1.5", "1e2", "x", "", "0x10", "１", "٣", "00", "1_0", "99999999999999999999", "-99999999999999999999", "\t1\n", "1 1", "NaN", "True"]
 
 
 def container_bytes(inp):
@@ -137,6 +139,22 @@ def container_bytes(inp):
     blob = _BLOBS[kind]
     if inp["damage"] == "declared-encoding":
         xml = zipfile.ZipFile(io.BytesIO(blob)).read("content.xml").decode("utf-8").replace('encoding="UTF-8"', 'encoding="%s"' % inp["declared"])
+        b = io.BytesIO()
+        with zipfile.ZipFile(b, "w", zipfile.ZIP_DEFLATED) as z:
+            z.writestr("content.xml", xml.encode("utf-8"))
+        return b.getvalue()
+    if inp["damage"] == "attr":
+        # a well-formed document in which one repeat attribute carries a hostile value
+        xml = ('<?xml version="1.0" encoding="UTF-8"?><office:document-content xmlns:office="urn:oasis:names:tc:opendocument:xmlns:office:1.0" '
+               'xmlns:table="urn:oasis:names:tc:opendocument:xmlns:table:1.0" xmlns:text="urn:oasis:names:tc:opendocument:xmlns:text:1.0">'
+               "<office:body><office:spreadsheet><table:table table:name=\"S\"><table:table-row table:number-rows-repeated=\"@R@\">"
+               "<table:table-cell><text:p>1</text:p></table:table-cell>"
+               "<table:table-cell table:number-columns-repeated=\"@C@\"><text:p>x<text:s text:c=\"@S@\"/>y</text:p></table:table-cell></table:table-row>"
+               "<table:table-row><table:table-cell table:number-columns-repeated=\"@E@\"/></table:table-row></table:table>"
+               "</office:spreadsheet></office:body></office:document-content>")
+        from xml.sax.saxutils import escape
+        for key in "RCSE":
+            xml = xml.replace("@%s@" % key, escape(inp["value"], {'"': "&quot;"}) if key == inp["place"] else "1")
         b = io.BytesIO()
         with zipfile.ZipFile(b, "w", zipfile.ZIP_DEFLATED) as z:
             z.writestr("content.xml", xml.encode("utf-8"))
@@ -244,6 +262,14 @@ def make_case(inp):
         with open(path, "wb") as fh:
             fh.write(container_bytes(inp))
         obs = read_data(DATA_CID[ext], path)
+        if inp.get("damage") == "attr" and "leak" not in obs:
+            # the same document used as the CID itself
+            try:
+                interface.Cid(path)
+            except errors.CutplaceError:
+                pass
+            except Exception as e:  # noqa
+                obs = {"leak": type(e).__name__, "msg": "as CID: " + str(e)[:100]}
         os.remove(path)
         return {"coq": P("CNoModel", "ONone"), "obs": obs, "nontrivial": True, "tags": ["container", ext, inp.get("damage", "text"), sorted(obs)[0]]}
     if kind == "write":
@@ -345,6 +371,9 @@ def gen_inputs(tier, rnd):
             yield {"kind": "container", "container": ext, "damage": "flip", "at": at, "bit": at % 8}
     for declared in ["Shift_JIS", "x-no-such-encoding", "utf-7", "EBCDIC-CP-US", "UTF-16", "ISO-8859-1"]:
         yield {"kind": "container", "container": "ods", "damage": "declared-encoding", "declared": declared}
+    for place in "RCSE":
+        for value in ATTR_POOL:
+            yield {"kind": "container", "container": "ods", "damage": "attr", "place": place, "value": value}
     # (c') the validating writer under CIDs with every built-in field type
     good_row = ["1", "1.5", "x", "01.02.2003", "ab", "ax", "k", "abcd"]
     for cid_name in ("txtall", "csvall"):
